@@ -342,6 +342,30 @@ unsafe fn drop_cycle<T>(cycle: HashMap<Link<T>, usize>) {
     }
 }
 
+// Remove `this` from the link tables of every object it is linked with and
+// destroy `this`'s own link table.
+//
+// `Rc::try_unwrap` and `Rc::make_mut` give up an allocation without running
+// `Rc::drop`. Without this purge, former adoption peers keep links to the
+// released allocation (a use-after-free when they are dropped or traced) and
+// the heap storage of the link table is leaked.
+pub(crate) unsafe fn release_links<T>(this: &Rc<T>) {
+    let forward = Link::forward(this.ptr);
+    let backward = Link::backward(this.ptr);
+    let links = this.inner().links();
+    for (item, &strong) in links.borrow().iter() {
+        if ptr::eq(this.inner(), item.as_ptr()) {
+            continue;
+        }
+        let mut links = item.as_ref().links().borrow_mut();
+        links.remove(forward, strong);
+        links.remove(backward, strong);
+    }
+    let rcbox = this.ptr.as_ptr();
+    let links = mem::replace(&mut (*rcbox).links, MaybeUninit::uninit());
+    drop(links.assume_init());
+}
+
 // Drop an `Rc` that is unreachable, but has adopted other `Rc`s.
 //
 // Unreachable `Rc`s have a strong count of zero, but because they have adopted
